@@ -35,6 +35,8 @@ func runC09(c *core.Ctx) {
 	h.snapshotOpenPinned("C09.8 open-pinned")
 	h.logChangedOnlyWithoutReaders("C09.10 log-readers")
 	h.logReadersComplete("C09.11 reader-set")
+	h.barrierRoundTrips("C09.5c barrier-round-trips")
+	h.applyInOrder("C09.12 applied-position")
 }
 
 func runC12(c *core.Ctx) {
